@@ -6,9 +6,18 @@
     together with [tip_ok]: the best chain root..tip runs through non-failed blocks only.
       lm_ok     : the validity level of a block never exceeds the level of its parent (connected => ancestors connected);
     [Inv_all] = Inv_tree + lm_ok + tip_ok is ONE invariant preserved by every operation.
-    Not proved in the model (checked on the implementation after every step by harness/invariants.hpp C1, C2):
-    "ACTIVE <=> on the best chain" and "appliedBlockCount = |chain|" (they need the unapply/apply loops of
-    PopStateMachine::setState related to the parent paths of both tips). *)
+    "ACTIVE <=> on the best chain" and "appliedBlockCount = |chain|" (invariants C1, C2 of harness/invariants.hpp) are
+    proved at the end of this file on the as-coded POP state machine Pop/SmDefs.v, which has the unapply/apply/rollback
+    loops of PopStateMachine::setState and comparePopScore: for EVERY reachable state (any history of connectBlock /
+    setState / comparePopScore with any scorer, failing and rolled-back walks included)
+      C07_active_iff_on_chain, C07_off_chain_not_applied, C07_chain_iff_applied_block : a block is flagged applied iff
+        it is on the chain root..tip - nothing off the chain stays applied;
+      C07_applied_count_exact, C07_applied_set_is_chain : appliedBlockCount = |chain| = number of ACTIVE blocks;
+      C07_chain_is_parent_path, C07_parent_path_unique : the chain is exactly the parent path root..tip;
+      C07_active_nonvacuous : a reachable state with forks off the chain.
+    Not proved (checked on the implementation after every step by the invariant checker): the same two facts across
+    invalidateSubtree / revalidateSubtree / removeSubtree / removePayloads / finalization - operations the POP machine
+    model does not have; for the Tree model above, which has them, the ACTIVE / applied-count facts are not stated. *)
 From Coq Require Import ZArith NArith List Bool.
 From VB Require Import Tree.TreeDefs Tree.TreeInv Tree.TreePass Tree.TreeProofs Tree.TreeExact Tree.TreeMono
   Tree.TreeSteps Tree.TreeChain Tree.TreeTips Tree.TreeTipsOps Tree.TreeTipsUp Tree.TreeTipsAlt Tree.TreeDeleted Tree.TreeTipsAll Tree.TreeLevels Tree.TreeAll.
@@ -99,3 +108,74 @@ Theorem C07_best_chain_valid :
   forall a z, In a (path (blocks s) (tip s)) -> find_blk a (blocks s) = Some z -> failed (bst z) = false.
 Proof. exact chain_valid. Qed.
 Print Assumptions C07_best_chain_valid.
+
+(* ---- BLOCK_ACTIVE <=> on the active chain, appliedBlockCount, parent path ----
+   As-coded POP state machine (Pop/SmDefs.v: applyBlock / unapplyBlock / unapplyWhile / unapply / apply with rollback /
+   PopStateMachine::setState / comparator setState + overrideTip / comparePopScore; every assert an explicit Abort).
+   [reachable base s]: s is produced from the bootstrapped tree by ANY history of connectBlock / setState /
+   comparePopScore (any scorer, any keystone predicate), including failing walks that were rolled back.
+   The Pop modules are required without Import (their names clash with the Tree model above). *)
+From VB Require Pop.SmDefs Pop.SmProofs Pop.SmWf Pop.SmActive.
+
+Theorem C07_active_iff_on_chain :
+  forall base s, SmProofs.reachable base s ->
+  forall b, In b (SmDefs.blocks _ _ s) ->
+    (SmDefs.b_act _ b = true <-> In (SmDefs.b_id _ b) (SmWf.chain s)).
+Proof. exact SmActive.active_iff_on_chain. Qed.
+Print Assumptions C07_active_iff_on_chain.
+
+(* nothing off the active chain stays applied *)
+Theorem C07_off_chain_not_applied :
+  forall base s, SmProofs.reachable base s ->
+  forall b, In b (SmDefs.blocks _ _ s) -> ~ In (SmDefs.b_id _ b) (SmWf.chain s) -> SmDefs.b_act _ b = false.
+Proof. exact SmActive.off_chain_not_applied. Qed.
+Print Assumptions C07_off_chain_not_applied.
+
+(* by ids: the chain consists of known blocks, exactly the applied ones *)
+Theorem C07_chain_iff_applied_block :
+  forall base s, SmProofs.reachable base s ->
+  forall j, In j (SmWf.chain s) <->
+            exists b, SmDefs.find SmDefs.ccmd (SmDefs.blocks _ _ s) j = Some b /\ SmDefs.b_act _ b = true.
+Proof. exact SmActive.chain_iff_applied_block. Qed.
+Print Assumptions C07_chain_iff_applied_block.
+
+(* appliedBlockCount = |chain| = number of blocks flagged BLOCK_ACTIVE *)
+Theorem C07_applied_count_exact :
+  forall base s, SmProofs.reachable base s ->
+    SmDefs.napp _ _ s = N.of_nat (length (SmWf.chain s)) /\
+    SmDefs.napp _ _ s = N.of_nat (length (filter (SmDefs.b_act SmDefs.ccmd) (SmDefs.blocks _ _ s))).
+Proof. exact SmActive.applied_count_exact. Qed.
+Print Assumptions C07_applied_count_exact.
+
+Theorem C07_applied_set_is_chain :
+  forall base s, SmProofs.reachable base s ->
+    Permutation.Permutation
+      (map (SmDefs.b_id SmDefs.ccmd) (filter (SmDefs.b_act SmDefs.ccmd) (SmDefs.blocks _ _ s))) (SmWf.chain s).
+Proof. exact SmActive.applied_set_is_chain. Qed.
+Print Assumptions C07_applied_set_is_chain.
+
+(* the chain (listed tip first; reversed: root..tip) is the parent path: starts at the root, ends at the tip, known
+   blocks only, each element's parent is the element before it at height root + position, no block twice
+   (SmActive.is_parent_path) - and it is the only list with these properties *)
+Theorem C07_chain_is_parent_path :
+  forall base s, SmProofs.reachable base s -> SmActive.is_parent_path s (rev (SmWf.chain s)).
+Proof. exact SmActive.chain_is_parent_path. Qed.
+Print Assumptions C07_chain_is_parent_path.
+
+Theorem C07_parent_path_unique :
+  forall base s, SmProofs.reachable base s -> forall p, SmActive.is_parent_path s p -> p = rev (SmWf.chain s).
+Proof. exact SmActive.parent_path_unique. Qed.
+Print Assumptions C07_parent_path_unique.
+
+(* non-vacuity: a reachable state (after a rolled-back failing setState and comparisons with either verdict) with
+   chain 0-3-15, block 6 on an abandoned fork not applied *)
+Theorem C07_active_nonvacuous :
+  exists s, SmProofs.reachable SmProofs.ex_base s /\ SmWf.chain s = [15; 3; 0]%N /\ SmDefs.napp _ _ s = 3%N /\
+            length (SmDefs.blocks _ _ s) = 6%nat /\
+            SmActive.is_parent_path s [0; 3; 15]%N /\
+            (exists b, In b (SmDefs.blocks _ _ s) /\ SmDefs.b_id _ b = 6%N /\
+                       ~ In (SmDefs.b_id _ b) (SmWf.chain s) /\ SmDefs.b_act _ b = false) /\
+            (exists b, In b (SmDefs.blocks _ _ s) /\ SmDefs.b_id _ b = 15%N /\
+                       In (SmDefs.b_id _ b) (SmWf.chain s) /\ SmDefs.b_act _ b = true).
+Proof. exact SmActive.ex_fork_state. Qed.
+Print Assumptions C07_active_nonvacuous.
